@@ -2380,6 +2380,9 @@ func tokenTypes() []simplexer.TokenType{
 		t(LT, methodOps["lt"]),
 		t(ADD_CHAIN, `[&~=]`),
 		t(MAIN_CHAIN, `[\.@$]`),
+		// NOTE: identifiers which start with a reserved word (like `iffy`) must be lexed before reserved words
+		// (the first matched token type is selected)
+		t(IDENT, `(if|else|return|yield|raise|defer)[a-zA-Z0-9_]+[!?]?`),
 		t(IF, `if`),
 		t(ELSE, `else`),
 		t(RETURN, `return`),
